@@ -110,6 +110,11 @@ pub struct Outcome {
     pub ended: bool,
     /// responses carrying exactly COMMAND_RESPONSE_MAX commands that were followed by another response
     pub full_responses: usize,
+    /// number of commands in each response, in order
+    pub resp_sizes: Vec<usize>,
+    /// the responder was still sending when the poll bound was reached: a transport polling to
+    /// the end message would never leave its loop, so nothing is committed
+    pub never_ended: bool,
     /// protocol steps executed (poll, decode, receive, add_commands, commit, update_heads)
     pub steps: u64,
     /// oracle clauses broken: (clause, description)
@@ -222,6 +227,7 @@ pub fn session(w: &World, a: &mut Peer, b: &mut Peer, sb: &NodeSet, cfg: Cfg, rn
         }
         if o.polls >= poll_bound {
             fault!(o, "no-termination", format!("responder still sending after {} polls (responder holds {} commands)", o.polls, sb.count()));
+            o.never_ended = true;
             break;
         }
         o.polls += 1;
@@ -282,6 +288,7 @@ pub fn session(w: &World, a: &mut Peer, b: &mut Peer, sb: &NodeSet, cfg: Cfg, rn
         }
         last_full = cmds.len() == COMMAND_RESPONSE_MAX;
         o.responses += 1;
+        o.resp_sizes.push(cmds.len());
         // soundness: every delivered command is one the responder has committed, verbatim
         for c in cmds.iter() {
             match w.idx_of.get(&c.id()) {
@@ -335,6 +342,10 @@ pub fn session(w: &World, a: &mut Peer, b: &mut Peer, sb: &NodeSet, cfg: Cfg, rn
         }
     }
 
+    if o.never_ended {
+        // the real poll loop never returns: the transaction is never committed
+        drop(trx.take());
+    }
     if let Some(t) = trx {
         o.steps += 1;
         if let Err(e) = a.r.client.commit(t, &mut a.r.sink, &mut a.r.buffers, CountingSpill::new) {
